@@ -198,6 +198,9 @@ class Harness:
     # ------------------------------------------------------------------
     def run(self):
         import logging
+        import warnings
+
+        warnings.filterwarnings("ignore", message="coroutine .* was never awaited")
 
         import gwf.backends.local as local
 
@@ -273,11 +276,11 @@ class Harness:
     # ------------------------------------------------------------------
     # process factory and signal interception
     async def _spawn(self, script, stdout=None, stderr=None, cwd=None, **kw):
-        # which task is spawning?  the script text carries the task index
-        if not isinstance(script, (str, bytes)):
-            raise ValueError("cmd must be a string")
-        idx = int(str(script).split(":")[1]) if str(script).startswith("task:") else None
-        tid = self.tid_of_idx.get(idx)
+        # which task is spawning?  the asyncio task that calls us is the scheduler's worker task of that tid
+        cur = asyncio.current_task()
+        tid = next((t for t, task in self.scheduler.tasks.items() if task is cur), None)
+        idx = self.idx_of_tid.get(tid)
+        bad_script = not isinstance(script, (str, bytes))
         tinfo = self.case["tasks"][idx] if idx is not None else {}
         self.spawn_attempts[tid] = self.spawn_attempts.get(tid, 0) + 1
         live_before = [p.pid for p in self.procs if p.live]
@@ -291,11 +294,13 @@ class Harness:
             "dep_states": {d: states.get(d) for d in dep_tids},
             "dep_exit": {d: self._natural_exit_of(d) for d in dep_tids},
             "live_before": live_before,
-            "failed_to_start": bool(tinfo.get("start_fail")),
+            "failed_to_start": bool(tinfo.get("start_fail")) or bad_script,
             "kw": sorted(kw),
         }
         self.spawns.append(rec)
         self.log("spawn", tid=tid, idx=idx, live_before=len(live_before), fail=rec["failed_to_start"])
+        if bad_script:
+            raise ValueError("cmd must be a string")
         if tinfo.get("start_fail"):
             raise FileNotFoundError(2, "No such file or directory", str(cwd))
         p = FakeProc(self, tid, script, cwd)
@@ -590,6 +595,7 @@ def run_harness(case, workdir):
 # --------------------------------------------------------------------------
 
 FINAL = {"COMPLETED", "FAILED", "KILLED", "CANCELLED"}
+AT_RUN = {"time_limit", "tl_str", "script_int"}  # malformed requests that only fail once the task is started
 BAD = {"FAILED", "KILLED", "CANCELLED"}
 
 
@@ -642,7 +648,7 @@ def replay_model(h):
                 continue
             acc[tid] = {"SUBMITTED"}
             deps[tid] = [h.tid_of_idx[d] for d in case["tasks"][e["idx"]]["deps"] if d in h.tid_of_idx and h.tid_of_idx[d] != tid]
-            if case["tasks"][e["idx"]].get("malformed"):
+            if case["tasks"][e["idx"]].get("malformed") and case["tasks"][e["idx"]]["malformed"] not in AT_RUN:
                 acc[tid] = {"FAILED", "KILLED"}
             propagate()
         elif k == "spawn":
@@ -652,7 +658,7 @@ def replay_model(h):
             if acc[tid] <= FINAL and acc[tid]:
                 continue  # spawn of a task the model already considers final: flagged by the checks
             spawned.add(tid)
-            if e["fail"]:
+            if e["fail"] or case["tasks"][e["idx"]].get("malformed") in AT_RUN:
                 acc[tid] = {"FAILED", "KILLED"}
             else:
                 acc[tid] = {"RUNNING"}
